@@ -29,11 +29,25 @@ var (
 	verif = flag.String("verif", "/verif", "verification tree")
 	out   = flag.String("out", "", "scratch directory for generated files")
 	check = flag.String("check", "", "check id (cNN): accessor files named only-cXX-cYY--*.go are added only for the checks they name")
+	// lenient: constructs the cooperative scheduler has no shim for (channel operations,
+	// sync/atomic, sync.Cond) are left as they are instead of refusing to bind. Sound for
+	// checks that never start the scheduler (everything runs on real goroutines there);
+	// the checks that do (C07, C08, C16) bind strictly.
+	lenient = flag.Bool("lenient", false, "leave unhookable concurrency constructs untouched instead of refusing")
 )
+
+func unhookable(format string, a ...any) {
+	if *lenient {
+		rep.Unhooked = append(rep.Unhooked, fmt.Sprintf(format, a...))
+		return
+	}
+	die(format, a...)
+}
 
 type report struct {
 	Rewritten []string `json:"rewritten_sites"`
 	Added     []string `json:"added_files"`
+	Unhooked  []string `json:"unhooked_constructs,omitempty"`
 }
 
 var rep report
@@ -263,7 +277,7 @@ func rewrite(pkg, path string, src []byte) ([]byte, bool) {
 			changed = true
 			rep.Rewritten = append(rep.Rewritten, pos(imp.Pos())+" import singleflight -> verifrt/singleflight")
 		case "sync/atomic":
-			die("%s uses sync/atomic, for which there is no shim", rel)
+			unhookable("%s uses sync/atomic, for which there is no shim", rel)
 		}
 	}
 	if syncName != "" {
@@ -271,7 +285,11 @@ func rewrite(pkg, path string, src []byte) ([]byte, bool) {
 			if s, ok := n.(*ast.SelectorExpr); ok {
 				if id, ok := s.X.(*ast.Ident); ok && id.Name == "sync" && id.Obj == nil {
 					if s.Sel.Name != "Mutex" && s.Sel.Name != "WaitGroup" && s.Sel.Name != "Pool" && s.Sel.Name != "Map" && s.Sel.Name != "Once" && s.Sel.Name != "RWMutex" {
-						die("%s uses sync.%s, for which there is no shim", pos(s.Pos()), s.Sel.Name)
+						if s.Sel.Name == "Cond" || s.Sel.Name == "NewCond" || s.Sel.Name == "Locker" {
+							unhookable("%s uses sync.%s, which is not a scheduling point of the cooperative scheduler", pos(s.Pos()), s.Sel.Name)
+						} else {
+							die("%s uses sync.%s, for which there is no shim", pos(s.Pos()), s.Sel.Name)
+						}
 					}
 				}
 			}
@@ -283,10 +301,10 @@ func rewrite(pkg, path string, src []byte) ([]byte, bool) {
 	ast.Inspect(file, func(n ast.Node) bool {
 		switch v := n.(type) {
 		case *ast.SendStmt, *ast.SelectStmt:
-			die("%s uses channel operations, for which there is no shim", pos(n.Pos()))
+			unhookable("%s uses channel operations, for which there is no shim", pos(n.Pos()))
 		case *ast.UnaryExpr:
 			if v.Op == token.ARROW {
-				die("%s uses channel operations, for which there is no shim", pos(n.Pos()))
+				unhookable("%s uses channel operations, for which there is no shim", pos(n.Pos()))
 			}
 		}
 		return true
@@ -300,17 +318,32 @@ func rewrite(pkg, path string, src []byte) ([]byte, bool) {
 				continue
 			}
 			var fn ast.Expr
+			var pre ast.Stmt
 			if lit, ok := gs.Call.Fun.(*ast.FuncLit); ok && len(gs.Call.Args) == 0 {
 				fn = lit
 			} else {
-				for _, a := range gs.Call.Args {
-					if !simpleArg(a) {
-						die("%s: go statement with non-trivial arguments", pos(gs.Pos()))
+				// the arguments of a go statement are evaluated by the spawning goroutine:
+				// keep that by evaluating them into temporaries first
+				if len(gs.Call.Args) > 0 {
+					var lhs []ast.Expr
+					for k := range gs.Call.Args {
+						lhs = append(lhs, ast.NewIdent(fmt.Sprintf("verifGoArg%d", k)))
 					}
+					pre = &ast.AssignStmt{Lhs: lhs, Tok: token.DEFINE, Rhs: gs.Call.Args}
+					args := make([]ast.Expr, len(lhs))
+					for k := range lhs {
+						args[k] = ast.NewIdent(fmt.Sprintf("verifGoArg%d", k))
+					}
+					gs.Call = &ast.CallExpr{Fun: gs.Call.Fun, Args: args, Ellipsis: gs.Call.Ellipsis}
 				}
 				fn = &ast.FuncLit{Type: &ast.FuncType{Params: &ast.FieldList{}}, Body: &ast.BlockStmt{List: []ast.Stmt{&ast.ExprStmt{X: gs.Call}}}}
 			}
-			list[i] = &ast.ExprStmt{X: call(sel("verifrt", "GoTag"), strLit(pkg), fn)}
+			spawn := &ast.ExprStmt{X: call(sel("verifrt", "GoTag"), strLit(pkg), fn)}
+			if pre != nil {
+				list[i] = &ast.BlockStmt{List: []ast.Stmt{pre, spawn}}
+			} else {
+				list[i] = spawn
+			}
 			rep.Rewritten = append(rep.Rewritten, pos(gs.Pos())+" go -> verifrt.GoTag")
 			changed, needRT = true, true
 		}
